@@ -380,6 +380,7 @@ class RealDul:
             d._recv_pdu.qsize(),
             self.closes,
             last,
+            bool(d.artim_timer._start_time is not None and d.artim_timer._end_time is None),  # ARTIM running
         ]
 
     def close(self):
